@@ -2102,3 +2102,102 @@ func VH_C01_replication_conn_reuse_failed_write() {
 	vAssert(leaderEnd.closed, "FW-connection-with-a-partly-written-request-is-closed")
 	vReach("end")
 }
+
+// vEmptyPeer: handshake ok; every append request is refused with "I hold nothing" (a new, empty node).
+func vEmptyPeer(conn *vPipeEnd) {
+	br := bufio.NewReader(conn)
+	bw := bufio.NewWriter(conn)
+	for {
+		b, err := br.ReadByte()
+		if err != nil {
+			return
+		}
+		switch rpcType(b) {
+		case rpcIdentity:
+			q := &identityReq{}
+			if q.decode(br) != nil {
+				return
+			}
+			_ = (&identityResp{resp{term: q.term, result: success}}).encode(bw)
+		case rpcAppendEntries:
+			q := &appendReq{}
+			if q.decode(br) != nil {
+				return
+			}
+			for k := uint64(0); k < q.numEntries; k++ {
+				e := &entry{}
+				if e.decode(br) != nil {
+					return
+				}
+			}
+			_ = (&appendResp{resp{term: q.term, result: prevEntryNotFound}, 0}).encode(bw)
+		default:
+			return // (an install-snapshot request: this scripted peer never gets a complete one)
+		}
+		if bw.Flush() != nil {
+			return
+		}
+	}
+}
+
+//verif:check C09,C03,C18 sched=coop maxsteps=800000 onunwind=violation stubs=rt,timers,valuefile,abslog,snapfs onblock=violation reach=snapshot-send-failed,stopped,end desc="the real replication goroutine serving a new, empty node from a leader whose log is compacted: the install-snapshot request it falls back to is cut short by the network (the write of the snapshot payload - which goes to the connection directly, past the buffered writer - delivers half and fails). Nothing more is written on that connection - the peer would read whatever follows as the rest of the snapshot, store it and restore its state machine from it - and the connection is closed" bounds="leader log compacted up to a snapshot at index 3 + 1 entry; scripted empty peer; the payload of the install-snapshot request fails half way; then back-off and stop"
+func VH_C09_replication_snapshot_send_failure() {
+	r := vLoopNode(Leader)
+	a := vAbs(r.log)
+	for i := uint64(2); i <= 4; i++ {
+		a.ents = append(a.ents, vEncodeEntry(&entry{index: i, term: 1, typ: entryUpdate, data: vBytes("cmd", 1)}))
+	}
+	a.flushed = 4
+	r.lastLogIndex, r.lastLogTerm = 4, 1
+	r.commitIndex = 4
+	vPublishSnapshot(r, 3, 1, r.configs.Latest, 10)
+	a.prev = 3 // compacted up to the snapshot
+	r.hbTimeout = 1000
+	vCopySendFailBudget = 1 // the payload of the first install-snapshot request goes out only half
+	var leaderEnd *vPipeEnd
+	writes := 0
+	dials := 0
+	r.dialFn = func(network, address string, timeout time.Duration) (net.Conn, error) {
+		dials++
+		if dials > 1 {
+			return nil, vIOError{"dial: connection refused"}
+		}
+		x, y := vPipe()
+		leaderEnd = x
+		x.onWrite = func() {
+			writes++ // identity, probe, then the install-snapshot request's header; its payload is abstract
+		}
+		go vEmptyPeer(y)
+		return x, nil
+	}
+	r.resolver.addrs[2] = vAddr(2)
+	l := r.ldr
+	l.replUpdateCh = make(chan replUpdate, 64)
+	repl := &replication{
+		node: r.configs.Latest.Nodes[2], rtime: newRandTime(),
+		status:        replicationStatus{id: 2, node: r.configs.Latest.Nodes[2]},
+		ldrStartIndex: 1, ldrLastIndex: r.lastLogIndex, nextIndex: r.lastLogIndex + 1,
+		connPool: r.getConnPool(2), hbTimeout: r.hbTimeout, timer: newSafeTimer(),
+		log: r.log.ViewAt(3, r.lastLogIndex), snaps: r.snaps,
+		stopCh: make(chan struct{}), replUpdateCh: l.replUpdateCh, leaderUpdateCh: make(chan leaderUpdate, 1),
+	}
+	areq := &appendReq{req: req{r.term, r.nid}, ldrCommitIndex: r.commitIndex, prevLogIndex: r.lastLogIndex, prevLogTerm: r.lastLogTerm}
+	ended := make(chan struct{})
+	go func() { repl.runLoop(areq); close(ended) }()
+	step := 0
+	vSetIdleHook(func() {
+		switch step {
+		case 0:
+			vAssert(vCopySendFailBudget == 0, "SF-install-snapshot-request-was-cut-short")
+			vReach("snapshot-send-failed")
+			vAssert(writes == 3, "SF-nothing-written-after-the-partly-written-snapshot-request")
+			vAssert(leaderEnd.closed, "SF-connection-closed-after-the-failed-snapshot-send")
+			close(repl.stopCh)
+		}
+		step++
+	})
+	<-ended
+	vReach("stopped")
+	vAssert(writes == 3, "SF-nothing-written-after-the-partly-written-snapshot-request")
+	vReach("end")
+}
